@@ -16,6 +16,9 @@ def vec(name, unit):
     return arg(name, 'length', dtype=VEC, unit=unit)
 
 
+SHORT = {n: n for n in ('source_position', 'sample_position', 'position', 'incident_beam', 'scattered_beam')}
+
+
 def run(chk):
     chk.trust('scipp model: vector arithmetic, norm, atan2 (value = real atan2), in-place operators and out= write semantics')
     chk.textbook('textbook facts about atan2/cos/sqrt/pi instantiated per occurrence (vf/kit.py atan2_axioms, cos_injective)',
@@ -46,19 +49,28 @@ def simple_kernels(chk, mod):
             ('source_position', 'position'),
             lambda a, r: z3.And(r.si >= 0, r.si * r.si == norm2([p - q for p, q in zip(a['position'].si, a['source_position'].si)]))),
     }
+    # the proofs are element-generic: repeated for operand-shape variants (a source/sample position is a scalar, detector positions
+    # are arrays; code may look at dims)
     for kname, (names, post) in cases.items():
         chk.function(MOD, kname)
         fn = getattr(mod, kname)
-        mk = lambda: {n: vec(n, uL) for n in names}
-        paths = chk.explore(lambda: fn(**mk()), base=base, catch=CATCH)
-        for i, p in enumerate(paths):
-            pre = f'{MOD}:{kname}'
-            if p.kind == 'raise':
-                chk.decided(f'{pre}/no-raise', False, detail=repr(p.value)); continue
-            a = mk()
-            chk.prove(f'{pre}/euclidean-definition', hyps_of(p), post(a, p.value))
-            chk.decided(f'{pre}/unit', p.value.unit == uL, detail=f'{p.value.unit}')
-            chk.decided(f'{pre}/frame', not kit.frame_violations(p), detail=str(kit.frame_violations(p)))
+        shapes = {'': None, '; shape: all 1-d': lambda n: ('pixel',)}
+        if len(names) > 1:
+            shapes[f'; shape: {names[0]} scalar, {names[1]} 1-d'] = lambda n, names=names: () if n == SHORT[names[0]] else ('pixel',)
+            shapes[f'; shape: {names[0]} 1-d, {names[1]} scalar'] = lambda n, names=names: () if n == SHORT[names[1]] else ('pixel',)
+        for stag, pol in shapes.items():
+            def mk():
+                with kit.dims_policy(pol):
+                    return {n: vec(SHORT[n], uL) for n in names}
+            paths = chk.explore(lambda: fn(**mk()), base=base, catch=CATCH)
+            for i, p in enumerate(paths):
+                pre = f'{MOD}:{kname}'
+                if p.kind == 'raise':
+                    chk.decided(f'{pre}/no-raise{stag}', False, detail=repr(p.value)); continue
+                a = mk()
+                chk.prove(f'{pre}/euclidean-definition{stag}', hyps_of(p), post(a, p.value))
+                chk.decided(f'{pre}/unit{stag}', p.value.unit == uL, detail=f'{p.value.unit}')
+                chk.decided(f'{pre}/frame{stag}', not kit.frame_violations(p), detail=str(kit.frame_violations(p)))
     # Ltotal = L1 + L2 (scalars, same unit)
     chk.function(MOD, 'total_beam_length')
     for dt in (F64, F32):
@@ -124,6 +136,22 @@ def two_theta_contract(chk, mod):
             nn = [n1 > 0, n2 > 0]
             chk.prove(f'{pre}/range-0-pi[{tag}]', hy + nn, z3.And(th >= 0, th <= PI), timeout=20, meta={'no_retry': True})
             chk.prove(f'{pre}/cosine-definition[{tag}]', hy + nn, COS(th) * n1 * n2 == d12, timeout=20, meta={'no_retry': True})
+    # operand-shape variants (scalar incident beam with per-pixel scattered beams is the usual case): same structural obligation
+    for stag, pol in {'incident scalar, scattered 1-d': lambda n: () if n == 'b1' else ('pixel',), 'both 1-d': lambda n: ('pixel',),
+                      'incident 1-d, scattered scalar': lambda n: ('pixel',) if n == 'b1' else (),
+                      'beams along different dims': lambda n: ('rotation',) if n == 'b1' else ('pixel',)}.items():
+        def mk():
+            with kit.dims_policy(pol):
+                return _tt_inputs()
+        for i, p in enumerate(chk.explore(lambda: mod.two_theta(**mk()), base=base, catch=CATCH)):
+            tag = f'shape: {stag}' + (f'/path{i}' if i else '')
+            if p.kind == 'raise':
+                chk.decided(f'{pre}/no-raise[{tag}]', False, detail=repr(p.value)); continue
+            r = p.value
+            chk.decided(f'{pre}/unit-rad,dtype,frame[{tag}]', r.unit == NAMED['rad'] and r.dtype == F64 and not kit.frame_violations(p),
+                        detail=f'{r.unit} {r.dtype} {kit.frame_violations(p)}')
+            if chk.extra.get('kahan_form_recognised', {}).get('all'):
+                chk.prove(f'{pre}/kahan-form[{tag}]', hyps_of(p, base), r.si == 2 * ATAN2(Y, X), timeout=10, meta={'structural': True})
     # consequences of the Kahan form, each an isolated small lemma (no path hypotheses)
     t = ATAN2(Y, X)
     th = 2 * t
